@@ -11,6 +11,11 @@
      RESIZE H W C oh ow | | X | C                       -> the same keys (C04Pool.v: resize_eval_batch / resize_eval / resize_wid; the sample
                                                            points, B-spline weights and clamped indices are computed by the model from
                                                            float division / floor passed as function arguments)
+     NEU act n | | X | C                                -> the same keys (C04Het.v: neu_eval / neu_eval1 / neu_wid)
+     NET k (flag <LIN|NEU|NRM|CONV|POOL|RESIZE spec> [inline params if flag = 0])*k | params | X | C
+                                                        -> OK np= rt= ft= eb= e1= [wpd=] [wid=] [wdp= wdi=] km=   (C04Het.v: hnet_set /
+                                                           hnet_eval / hnet_eval1 / hnet_features / hnet_wpd / hnet_wid / hnet_wd over the layer
+                                                           kinds lin_kind, neu_kind, norm_kind, conv_kind, pool_kind, resize_kind)
    every other model kind (monitored only, not modelled in Coq) -> SKIP *)
 open C04_model
 
@@ -60,6 +65,68 @@ let read_x seg =
       if n = 0 then (b, n, List.init b (fun _ -> [])) else (b, n, chunks n v)
   | _ -> failwith "X"
 
+(* ---- heterogeneous concatenations: layer kinds of C04Het.v from a spec token stream ----
+   parse_kind toks pos -> (kind, kink probe, next position) ; the kink probe returns, for one input batch, the margin of the
+   non-differentiable points of the layer: rectifier pre-activations |pre| / (1 + max |pre|), max pooling gap between the two
+   largest entries of a patch / (1 + |max|); infinity for smooth layers.  Unknown kinds raise Not_modelled. *)
+exception Not_modelled
+let ofnat_f n = float_of_int (int_of_nat n)
+let floorn_f v = nat_of_int (int_of_float (Float.floor v))
+let rect_margin (pre : float list list) : float =
+  let mx = List.fold_left (fun m r -> List.fold_left (fun m v -> Float.max m (Float.abs v)) m r) 0.0 pre in
+  List.fold_left (fun m r -> List.fold_left (fun m v -> Float.min m (Float.abs v /. (1.0 +. mx))) m r) infinity pre
+let pool_margin (g : pgeo) (x : float list list) : float =
+  let hh = int_of_nat g.pH and w = int_of_nat g.pW and c = int_of_nat g.pC and ph = int_of_nat g.pph and pw = int_of_nat g.ppw in
+  let oh = hh / ph and ow = w / pw in
+  List.fold_left (fun m row ->
+      let a = Array.of_list row in
+      let m = ref m in
+      for p = 0 to oh * ow - 1 do for ch = 0 to c - 1 do
+          let vals = ref [] in
+          for i = (p / ow) * ph to (p / ow) * ph + ph - 1 do for j = (p mod ow) * pw to (p mod ow) * pw + pw - 1 do
+              vals := a.((i * w + j) * c + ch) :: !vals done done;
+          (match List.sort (fun u v -> compare v u) !vals with
+           | v1 :: v2 :: _ -> m := Float.min !m ((v1 -. v2) /. (1.0 +. Float.abs v1))
+           | _ -> ())
+        done done; !m) infinity x
+let rec parse_kind (spec : string array) (p : int) : float lkind * (float list -> float list list -> float) * int =
+  let i k = int_of_string spec.(p + k) in
+  let smooth = fun _ _ -> infinity in
+  match spec.(p) with
+  | "LIN" ->
+    let a = i 1 and off = i 2 <> 0 and ni = nat_of_int (i 3) and no = nat_of_int (i 4) in
+    let probe = if a = 1 then (fun par x -> rect_margin (lin_pre_batch z fadd fmul (lin_set ni no off (act_of a) par) x)) else smooth in
+    (lin_kind z fadd fmul ni no off (act_of a), probe, p + 5)
+  | "NEU" ->
+    let a = i 1 and n = nat_of_int (i 2) in
+    (neu_kind n (act_of a), (if a = 1 then (fun _ x -> rect_margin x) else smooth), p + 3)
+  | "NRM" -> (norm_kind fadd fmul (nat_of_int (i 1)) (i 2 <> 0), smooth, p + 3)
+  | "CONV" ->
+    let a = i 1 in
+    let g = { gC = nat_of_int (i 4); gF = nat_of_int (i 5); gH = nat_of_int (i 2); gW = nat_of_int (i 3);
+              gfh = nat_of_int (i 6); gfw = nat_of_int (i 7); gpad = (i 8 <> 0) } in
+    let probe = if a = 1 then (fun par x -> rect_margin (conv_pre_batch z fadd fmul (conv_set z g (act_of a) par) x)) else smooth in
+    (conv_kind z fadd fmul g (act_of a), probe, p + 9)
+  | "POOL" ->
+    let g = { pH = nat_of_int (i 1); pW = nat_of_int (i 2); pC = nat_of_int (i 3); pph = nat_of_int (i 4); ppw = nat_of_int (i 5) } in
+    (pool_kind z fadd (fun a b -> a < b) g, (fun _ x -> pool_margin g x), p + 6)
+  | "RESIZE" ->
+    let g = { rH = nat_of_int (i 1); rW = nat_of_int (i 2); rC = nat_of_int (i 3); roh = nat_of_int (i 4); row_ = nat_of_int (i 5) } in
+    (resize_kind z fadd fmul fsub fdiv Float.neg ofnat_f floorn_f g, smooth, p + 6)
+  | _ -> raise Not_modelled
+(* NET k (flag <spec> [inline parameters if flag = 0])*k *)
+let parse_net (spec : string array) : float hnet * (float list -> float list list -> float) list =
+  let k = int_of_string spec.(1) in
+  let pos = ref 2 and layers = ref [] and probes = ref [] in
+  for _ = 1 to k do
+    let flag = spec.(!pos) <> "0" in
+    let (kind, probe, q) = parse_kind spec (!pos + 1) in
+    let np = int_of_nat kind.k_np in
+    let (par, q) = if flag then (List.init np (fun _ -> 0.0), q) else (List.init np (fun j -> fos spec.(q + j)), q + np) in
+    layers := { h_opt = flag; h_kind = kind; h_par = par } :: !layers; probes := probe :: !probes; pos := q
+  done;
+  (List.rev !layers, List.rev !probes)
+
 let () =
   let ic = open_in Sys.argv.(1) in
   (try while true do
@@ -97,7 +164,32 @@ let () =
                   if spec.(o) <> "1" || spec.(o + 1) <> "LIN" then ok := false
                   else sh := (((nat_of_int (i (o + 4)), nat_of_int (i (o + 5))), i (o + 3) <> 0), act_of (i (o + 2))) :: !sh
                 done;
-              if not !ok then "SKIP" else begin
+              if not !ok then begin
+                (* heterogeneous layers and / or frozen layers: C04Het.v *)
+                try
+                  let (n0, probes) = parse_net spec in
+                  let np = int_of_nat (hnet_np n0) in
+                  let nt = hnet_set n0 params in
+                  let eb = hnet_eval nt x in
+                  let e1 = List.map (hnet_eval1 nt) x in
+                  let (pD, iD) = hnet_features nt in
+                  let no = match eb with r :: _ -> List.length r | [] -> 0 in
+                  let cs = List.map fos (toks seg.(3)) in
+                  let c = if no = 0 then List.init b (fun _ -> []) else chunks no cs in
+                  let (_, km) = List.fold_left2 (fun (xin, m) (ly : float hlayer) probe ->
+                      (ly.h_kind.k_eval ly.h_par xin, Float.min m (probe ly.h_par xin))) (x, infinity) nt probes in
+                  let buf = Buffer.create 1024 in
+                  Buffer.add_string buf (Printf.sprintf "OK np=%d rt=%s ft=%d eb=%s e1=%s" np (csv (hnet_params nt))
+                                           ((if pD then 1 else 0) + (if iD then 4 else 0)) (csv (List.concat eb)) (csv (List.concat e1)));
+                  if pD then Buffer.add_string buf (Printf.sprintf " wpd=%s" (csv (hnet_wpd nt x c)));
+                  if iD then Buffer.add_string buf (Printf.sprintf " wid=%s" (csv (List.concat (hnet_wid nt x c))));
+                  if pD && iD then begin
+                    let (g, d) = hnet_wd nt x c in
+                    Buffer.add_string buf (Printf.sprintf " wdp=%s wdi=%s" (csv g) (csv (List.concat d))) end;
+                  Buffer.add_string buf (Printf.sprintf " km=%s" (pf km));
+                  Buffer.contents buf
+                with Not_modelled -> "SKIP"
+              end else begin
                 let no = int_of_nat (snd (fst (fst (List.nth !sh (k - 1))))) in
                 let cs = List.map fos (toks seg.(3)) in
                 let c = if no = 0 then List.init b (fun _ -> []) else chunks no cs in
@@ -110,6 +202,13 @@ let () =
                 let km = List.fold_left (fun m row ->
                     let (m', _) = List.fold_left2 (fun (m, xr) ((_, ly) : (nat * nat) * float layer) a ->
                         ((if a = 1 then Float.min m (margin_row ly xr) else m), lin_eval z fadd fmul ly xr)) (m, row) nt acts in m') infinity x in
+                (* the same network through the general model of C04Het.v must give the same lists *)
+                let (h0, _) = parse_net spec in
+                let ht = hnet_set h0 params in
+                let (hg, hd) = hnet_wd ht x c in
+                if hnet_eval ht x <> eb || hnet_params ht <> net_params nt || compare hg g <> 0 || compare hd d <> 0
+                   || compare (hnet_wpd ht x c) g <> 0 || compare (hnet_wid ht x c) d <> 0
+                then failwith "C04Het model differs from C04Model on a LinearModel network";
                 Printf.sprintf "OK np=%d rt=%s eb=%s e1=%s wpd=%s wid=%s wdp=%s wdi=%s km=%s" np (csv (net_params nt))
                   (csv (List.concat eb)) (csv (List.concat e1)) (csv g) (csv (List.concat d)) (csv g) (csv (List.concat d)) (pf km)
               end
@@ -145,6 +244,16 @@ let () =
               let (wdp, wdi) = conv_wd z fadd fmul m x c in
               Printf.sprintf "OK np=%d rt=%s eb=%s e1=%s wpd=%s wid=%s wdp=%s wdi=%s" np (csv (conv_params m))
                 (csv (List.concat eb)) (csv (List.concat e1)) (csv wpd) (csv (List.concat wid)) (csv wdp) (csv (List.concat wdi))
+            | "NEU" ->
+              let a = act_of (i 1) and n = i 2 in
+              let cs = List.map fos (toks seg.(3)) in
+              let c = if n = 0 then List.init b (fun _ -> []) else chunks n cs in
+              let eb = neu_eval a x in
+              let e1 = List.map (neu_eval1 a) x in
+              let wid = neu_wid a x c in
+              let km = if i 1 = 1 then rect_margin x else infinity in
+              Printf.sprintf "OK np=0 rt= eb=%s e1=%s wpd= wid=%s wdp= wdi=%s km=%s" (csv (List.concat eb)) (csv (List.concat e1))
+                (csv (List.concat wid)) (csv (List.concat wid)) (pf km)
             | "POOL" ->
               let g = { pH = nat_of_int (i 1); pW = nat_of_int (i 2); pC = nat_of_int (i 3); pph = nat_of_int (i 4); ppw = nat_of_int (i 5) } in
               let no = int_of_nat (pool_nout g) in
